@@ -58,7 +58,7 @@ Definition project (ev : list event) : list out :=
     | EMsg i d => [OMsg i d]
     | EFlush => [OFlush]
     | EErr => [OErr]
-    | ECons _ (CPlain t) a | ECons _ (CSendMore t _) a => [OCons t a]
+    | ECons _ (CPlain t) a | ECons _ (CSendMore t _) a | ECons _ (CFail t) a => [OCons t a]
     | ECons _ (CRelay _) _ => []
     | EBackend _ b a => [OBackend b a]
     | ECompletion => [OCompletion]
@@ -129,6 +129,27 @@ Definition fires (h : list hcall) : nat :=
 Definition completion_ok (h : list hcall) : bool :=
   count_out is_completion (all_outs h) <=? fires h.
 
+(* "exactly once ... after every outstanding message has been answered", on the observation alone,
+   for histories the property speaks about (adm: the event once, answers after it, no clear): when
+   the event has fired and as many consumers / relay writes have been invoked as messages were
+   registered (successful sends, plus the k messages each invoked CSendMore consumer sent), the
+   completion has run exactly once — whatever the consumers returned. *)
+Definition has_err (os : list out) : bool := existsb (fun o => match o with OErr => true | _ => false end) os.
+Definition registered (h : list hcall) : nat :=
+  length (filter (fun x => match c_op x with
+                           | OSend _ _ | ORelay _ _ => negb (has_err (c_ret x))
+                           | _ => false end) h)
+  + fold_right (fun o n => match o with
+        | OCons t _ =>
+            fold_right (fun x m => match c_op x with
+                                   | OSend (CSendMore t' k) _ => if N.eqb t t' then k else m
+                                   | _ => m end) 0 h + n
+        | _ => n end) 0 (all_outs h).
+Definition p_completes (h : list hcall) : bool :=
+  negb (adm false (map (fun x => c_op x) h)) || negb (0 <? fires h)
+  || negb (registered h =? count_out is_invocation (all_outs h))
+  || (count_out is_completion (all_outs h) =? 1).
+
 Definition holds_P (c : case) : bool :=
   let h := hist c in
   completion_ok h &&
@@ -141,7 +162,7 @@ Definition holds_P (c : case) : bool :=
                                                           | OResponse id' _ _ => Z.eqb id id' && existsb is_invocation (c_ret y)
                                                           | _ => false end) h) <=? 1
                              | _ => true end) h
-   else walk (all_outs h) [] h).
+   else walk (all_outs h) [] h && p_completes h).
 
 Definition lin_fuel : nat := 40.
 
